@@ -36,6 +36,8 @@ pub struct CaseSpec {
     pub seek_fault: Option<usize>,
     pub chunk: usize,
     pub label: String,
+    /// (IX, DE) of the two fast-load requests made after a tape was inserted
+    pub request: (u16, u16),
 }
 
 #[derive(Debug, Clone, PartialEq, Eq)]
@@ -179,13 +181,14 @@ pub fn execute_q(c: &CaseSpec, quick: bool) -> (Outcome, usize, usize) {
                 let _ = e.rewind_tape();
                 // two fast-load requests through the ROM entry
                 e.set_debug_interface(VDebug::at(&[0x8F00]));
+                let (req_ix, req_de) = c.request;
                 for _ in 0..2 {
                     let mut v = RegsView::default();
                     v.pc = 0x0556;
                     v.sp = 0xFF40;
                     v.af = 0xFF01;
-                    v.ix = 0x9000;
-                    v.de = 0x0140;
+                    v.ix = req_ix;
+                    v.de = req_de;
                     v.im = 1;
                     rig::set_regs(e.verif_cpu(), &v);
                     rig::poke(&mut e, 0xFF40, &[0x00, 0x8F]);
@@ -291,7 +294,7 @@ fn seeds() -> Vec<(Entry, bool, String, Arc<Vec<u8>>)> {
 }
 
 fn spec(entry: Entry, m128: bool, bytes: Vec<u8>, label: String) -> CaseSpec {
-    CaseSpec { entry, m128, bytes: Arc::new(bytes), faults: vec![], seek_fault: None, chunk: 0, label }
+    CaseSpec { entry, m128, bytes: Arc::new(bytes), faults: vec![], seek_fault: None, chunk: 0, label, request: (0x9000, 0x0140) }
 }
 
 /// structural fields of a seed: (offset, width)
@@ -464,6 +467,54 @@ fn build_families(quick: bool) -> Vec<Family> {
                 f.extend_from_slice(&(d.len() as u32).to_le_bytes());
                 f.extend_from_slice(&d);
                 spec(Entry::Szx, m128, f, format!("szx-ramp:{}:page{}:size{}", if compressed { "zlib" } else { "stored" }, page, size))
+            }),
+        });
+    }
+    // structure-aware: SZX files whose Z80R chunk holds corner values of PC and SP, with the
+    // halted / EI-last flags and every interrupt mode: the loader adjusts PC for HALT and the
+    // restored CPU runs on
+    for m128 in [false, true] {
+        let pcs: Vec<u16> = vec![0x0000, 0x0001, 0x0002, 0x3FFF, 0x4000, 0x7FFF, 0x8000, 0xFFFE, 0xFFFF];
+        let sps: Vec<u16> = vec![0x0000, 0x0001, 0x0002, 0x4000, 0xFFFF];
+        let n = pcs.len() * sps.len() * 2 * 2 * 2;
+        fams.push(Family {
+            name: format!("szx-z80r-corners:{}", if m128 { 128 } else { 48 }),
+            count: n,
+            make: Box::new(move |i| {
+                let compressed = i % 2 == 1;
+                let halted = (i / 2) % 2 == 1;
+                let eilast = (i / 4) % 2 == 1;
+                let sp = sps[(i / 8) % sps.len()];
+                let pc = pcs[i / 8 / sps.len()];
+                let mut s = MState::new(m128, 2);
+                s.regs.pc = pc;
+                s.regs.sp = sp;
+                s.regs.iff1 = eilast;
+                s.regs.iff2 = eilast;
+                s.regs.im = (i % 3) as u8;
+                s.eilast = eilast;
+                let f = szx(&s, &SzxOpts { compressed, halted, ..SzxOpts::default() });
+                spec(Entry::Szx, m128, f, format!("szx-z80r:pc{:04x}:sp{:04x}:halted{}:eilast{}", pc, sp, halted, eilast))
+            }),
+        });
+    }
+    // structure-aware: tapes whose fast load (ROM trap) runs against the top of memory, the ROM and
+    // the request corners: IX+DE beyond 0xFFFF, into ROM, DE = 0 / 1 / FFFF, block shorter/longer
+    for m128 in [false, true] {
+        let reqs: Vec<(u16, u16)> = vec![(0xFFFE, 4), (0xFFFF, 1), (0xFFFF, 2), (0xFF00, 0x0200), (0x0000, 0x0010), (0x3FFE, 4), (0x8000, 0), (0x8000, 0xFFFF), (0xFFF0, 0xFFFF)];
+        let lens: Vec<usize> = vec![0, 1, 2, 4, 300, 70000];
+        let n = reqs.len() * lens.len();
+        fams.push(Family {
+            name: format!("tap-fastload-request-corners:{}", if m128 { 128 } else { 48 }),
+            count: n,
+            make: Box::new(move |i| {
+                let (ix, de) = reqs[i % reqs.len()];
+                let len = lens[i / reqs.len()];
+                let payload: Vec<u8> = (0..len.min(65533)).map(|k| (k * 11 + 5) as u8).collect();
+                let blk = std_block(0xFF, &payload);
+                let mut c = spec(Entry::Tap, m128, tap_image(&[blk.clone(), blk]), format!("tap-fastload:ix{:04x}:de{:04x}:payload{}", ix, de, len));
+                c.request = (ix, de);
+                c
             }),
         });
     }
